@@ -29,7 +29,7 @@ def remove_pre(st, a):
 def remove_modifies(st, a):
     b, o = a["self"], a["order"]
     ls = book_lists(st, b, [exp_key(st, o.term)])
-    return [("len", ls), ("mem", ls), ("el:Int", ls), ("heapok", ls), ("nodup", ls)]
+    return [("len", ls), ("mem", ls), ("el:Ref", ls), ("heapok", ls), ("nodup", ls)]
 
 
 def remove_post(st0, st1, a, res):
@@ -121,7 +121,7 @@ def add_modifies(st, a):
     b, o = a["self"], a["order"]
     ls = book_lists(st, b, [add_key(st, a)])
     e = etl(st, b).term
-    return [("f:Order.placed_at", [o.term]), ("len", ls), ("mem", ls), ("el:Int", ls), ("heapok", ls), ("nodup", ls), ("dd:Int_Int", [e]), ("dv:Int_Int", [e])]
+    return [("f:Order.placed_at", [o.term]), ("len", ls), ("mem", ls), ("el:Ref", ls), ("heapok", ls), ("nodup", ls), ("dd:Int_Ref", [e]), ("dv:Int_Ref", [e])]
 
 
 def add_post(st0, st1, a, res):
@@ -159,7 +159,7 @@ def cancel_modifies(st, a):
     b, c = a["self"], a["cancel"]
     o = st.read(c, "order").term
     ls = book_lists(st, b, [exp_key(st, o)])
-    return [("f:Order.is_canceled", [o]), ("f:Cancel.placed_at", [c.term]), ("len", ls), ("mem", ls), ("el:Int", ls), ("heapok", ls), ("nodup", ls)]
+    return [("f:Order.is_canceled", [o]), ("f:Cancel.placed_at", [c.term]), ("len", ls), ("mem", ls), ("el:Ref", ls), ("heapok", ls), ("nodup", ls)]
 
 
 def cancel_post(st0, st1, a, res):
@@ -217,7 +217,7 @@ def ceo_pre(st, a):
 def ceo_modifies(st, a):
     b = a["self"]
     q = queue(st, b).term; e = etl(st, b).term
-    return [("len", [q]), ("mem", [q]), ("el:Int", [q]), ("heapok", [q]), ("nodup", [q]), ("dd:Int_Int", [e]), ("dv:Int_Int", [e])] + \
+    return [("len", [q]), ("mem", [q]), ("el:Ref", [q]), ("heapok", [q]), ("nodup", [q]), ("dd:Int_Ref", [e]), ("dv:Int_Ref", [e])] + \
            [("f:ExpirationLog." + f, []) for f in LOG_FIELDS]
 
 
@@ -260,7 +260,7 @@ def ceo_loops():
 
     def mods1(st, ctx):
         b = st.env["self"]; q = queue(st, b).term; logs = st.env["logs"].term
-        return [("len", [q, logs]), ("mem", [q, logs]), ("el:Int", [q, logs]), ("heapok", [q, logs]), ("nodup", [q, logs])] + [("f:ExpirationLog." + f, []) for f in LOG_FIELDS]
+        return [("len", [q, logs]), ("mem", [q, logs]), ("el:Ref", [q, logs]), ("heapok", [q, logs]), ("nodup", [q, logs])] + [("f:ExpirationLog." + f, []) for f in LOG_FIELDS]
 
     def inv2(st, ctx):
         e = ctx["entry"]; b = st.env["self"]; i = ctx["i"]; k = z3.Int("k_l2")
@@ -274,7 +274,7 @@ def ceo_loops():
 
     def mods2(st, ctx):
         e = etl(st, st.env["self"]).term
-        return [("dd:Int_Int", [e]), ("dv:Int_Int", [e])]
+        return [("dd:Int_Ref", [e]), ("dv:Int_Ref", [e])]
     return {0: LoopSpec(inv1, mods1, header="delete_orders", name="remove-overdue"), 1: LoopSpec(inv2, mods2, header="delete_keys", name="pop-keys")}
 
 
